@@ -8,7 +8,7 @@ import (
 	"github.com/openebs/jiva/zzfs"
 )
 
-var zzStates = []string{"initial", "closed", "open", "dirty", "rebuilding", "error"}
+var zzStates = []string{"initial", "closed", "open", "dirty", "rebuilding", "error", "closed-rebuilding", "closed-dirty"}
 
 type zzHandler struct {
 	name   string
